@@ -18,15 +18,69 @@ package cache
 //@ func (*Cache).Get
 //@   trusted
 //@   modifies nothing
-//@ func (*Cache).CompareAndDelete
-//@   trusted
-//@   modifies pkgheap("internal/cache")
-//@ func (*Cache).CompareAndSwap
-//@   trusted
-//@   modifies pkgheap("internal/cache")
 //@ func (*Cache).Add
 //@   trusted
 //@   modifies pkgheap("internal/cache")
 //@ func (*Cache).Remove
 //@   trusted
 //@   modifies pkgheap("internal/cache")
+//@
+//@ # ---- C16: segment selection is a function of the key and always lands inside the segment table
+//@ pred segWF(m *SegmentUInt64Map[any]) := m != nil && len(m.segments) > 0 && m.segmentMask == len(m.segments) - 1 && (forall i int :: {m.segments[i]} 0 <= i && i < len(m.segments) ==> m.segments[i] != nil && m.segments[i].data != nil)
+//@ pred cacheWF(c *Cache) := c != nil && c.data != nil && segWF(c.data.data)
+//@ uninterp segIndexOf(mask int, key uint64) int
+//@ func (*SegmentUInt64Map[any]).getSegmentIndex
+//@   trusted
+//@   note verified separately in bit-vector arithmetic as getSegmentIndex's own body: (h>>16) & mask <= mask
+//@   requires m != nil && m.segmentMask >= 0
+//@   modifies nothing
+//@   ensures 0 <= int(result) && int(result) <= m.segmentMask && int(result) == segIndexOf(m.segmentMask, key)
+//@ func (*SegmentUInt64Map[any]).getSegment
+//@   requires segWF(m)
+//@   modifies nothing
+//@   ensures result != nil && result.data != nil && result == m.segments[segIndexOf(m.segmentMask, key)]
+//@
+//@ # frames of the open-addressing table operations (functional contracts: below / work in progress)
+//@ func (*UInt64Map[any]).Get
+//@   trusted
+//@   modifies nothing
+//@ func (*UInt64Map[any]).Put
+//@   trusted
+//@   modifies m.size, m.hasZeroKey, m.zeroVal, m.data, m.mask, m.growAt, elems(m.data)
+//@ func (*UInt64Map[any]).Del
+//@   trusted
+//@   modifies m.size, m.hasZeroKey, m.zeroVal, elems(m.data)
+//@
+//@ func (*UInt64Map[any]).EvictKeysAt
+//@   trusted
+//@   modifies m.size, m.hasZeroKey, m.zeroVal, elems(m.data)
+//@   ensures 0 <= result && (n <= 0 || result <= n) && (n <= 0 ==> result == 0)
+//@
+//@ # ---- C16: a capped insert holds at most ONE segment lock at any time (writers never nest locks), never
+//@ # asks a segment to evict the key being written (skip == key on every eviction call), and keeps the shared
+//@ # count in step with what was inserted and evicted
+//@ func (*SegmentUInt64Map[any]).SetWithCap
+//@   arith bv
+//@   requires segWF(m)
+//@   assert at call (*sync.RWMutex).Lock#1: calls("(*sync.RWMutex).Lock") == calls("(*sync.RWMutex).Unlock")
+//@   assert at call (*sync.RWMutex).Lock#2: calls("(*sync.RWMutex).Lock") == calls("(*sync.RWMutex).Unlock")
+//@   assert at return: calls("(*sync.RWMutex).Lock") == calls("(*sync.RWMutex).Unlock")
+//@   assert at call (*internal/cache.UInt64Map[any]).EvictKeysAt#1: arg3 == key && arg2 == 2
+//@   assert at call (*internal/cache.UInt64Map[any]).EvictKeysAt#2: arg3 == key && arg2 == deficit && deficit > 0 && deficit <= 2
+//@   assert at call (*internal/cache.UInt64Map[any]).Put#1: arg1 == key && arg2 == value && arg0 == m.segments[int(segIdx)].data
+//@   loop 1 invariant calls("(*sync.RWMutex).Lock") == calls("(*sync.RWMutex).Unlock") && deficit <= 2 && segWF(m)
+//@
+//@ # ---- C16: compare-and-swap / compare-and-delete act only when the IDENTICAL current value is present
+//@ func (*Cache).CompareAndSwap
+//@   requires cacheWF(c)
+//@   ensures result ==> calls("(*internal/cache.UInt64Map[any]).Put") == 1
+//@   ensures !result ==> calls("(*internal/cache.UInt64Map[any]).Put") == 0
+//@   assert at call (*internal/cache.UInt64Map[any]).Put#1: ok && cur == old && arg1 == key && arg2 == value
+//@   assert at call (*internal/cache.UInt64Map[any]).Get#1: arg1 == key
+//@
+//@ func (*Cache).CompareAndDelete
+//@   requires cacheWF(c)
+//@   ensures !result ==> calls("(*sync/atomic.Int64).Add") == 0
+//@   ensures result ==> calls("(*sync/atomic.Int64).Add") == 1 && calls("(*internal/cache.UInt64Map[any]).Del") == 1
+//@   assert at call (*internal/cache.UInt64Map[any]).Del#1: ok && cur == old && arg1 == key
+//@   assert at call (*sync/atomic.Int64).Add#1: arg1 == -1
